@@ -21,6 +21,11 @@ import (
 type BloomConfig struct {
 	Geom  string     `json:"geometry"` // "1x2": 1 byte, 2 hash functions; "2x1": 2 bytes, 1 function
 	Progs [][]string `json:"programs"`
+	// Filters > 1: thread i works on its OWN filter (number i mod Filters) with its own items.  Nothing
+	// is shared between the threads except what the package shares between all filters (package-level
+	// scratch buffers, pools, tables): every thread's results and every filter's final bytes must be
+	// those of running its program alone.
+	Filters int `json:"filters,omitempty"`
 }
 
 var BloomOps = []string{"Add:x", "Add:y", "AddHash", "AddOutPoint", "Matches:x", "Matches:y", "MatchesOutPoint", "MatchTx", "Reload", "Unload", "IsLoaded", "Msg"}
@@ -30,7 +35,19 @@ var (
 	itemY = []byte("y-item")
 	hashH = chainhash.Hash{0x11, 0x22, 0x33}
 	outO  = wire.OutPoint{Hash: chainhash.Hash{0x44, 0x55}, Index: 7}
+	// the items of the second filter of a two-filter configuration (same lengths, other contents)
+	itemY2 = []byte("Y-ITEM")
+	hashH2 = chainhash.Hash{0xee, 0xdd, 0xcc, 0x01}
+	outO2  = wire.OutPoint{Hash: chainhash.Hash{0xbb, 0xaa, 0x07}, Index: 0x01020304}
 )
+
+// items of filter number v
+func itemsOf(v int) (y []byte, h chainhash.Hash, o wire.OutPoint) {
+	if v%2 == 1 {
+		return itemY2, hashH2, outO2
+	}
+	return itemY, hashH, outO
+}
 
 func geom(g string) (int, uint32) {
 	switch g {
@@ -38,6 +55,8 @@ func geom(g string) (int, uint32) {
 		return 2, 1
 	case "big": // 4096 bytes, one hash function: a thousand insertions do not saturate it
 		return 4096, 1
+	case "8x2": // 8 bytes, two functions: the items of one filter are (almost surely) absent from the other
+		return 8, 2
 	}
 	return 1, 2
 }
@@ -53,6 +72,8 @@ func reloadBytes(g string) []byte {
 		return []byte{0x00}
 	case "big":
 		return make([]byte, 4096)
+	case "8x2":
+		return make([]byte, 5)
 	}
 	return []byte{0xff, 0xff}
 }
@@ -109,6 +130,7 @@ type histOp struct {
 type model struct {
 	loaded int // 0 none, 1 m0, 2 m1
 	b      [3]*ref.Bloom
+	v      int // which filter of a multi-filter configuration (selects the items)
 }
 
 func newModel(g string) *model {
@@ -120,13 +142,14 @@ func newModel(g string) *model {
 }
 
 func (m *model) clone() *model {
-	c := &model{loaded: m.loaded}
+	c := &model{loaded: m.loaded, v: m.v}
 	c.b[1], c.b[2] = m.b[1].Clone(), m.b[2].Clone()
 	return c
 }
 
 func (m *model) apply(op string) string {
 	cur := m.b[m.loaded]
+	itemY, hashH, outO := itemsOf(m.v)
 	switch op {
 	case "Add:x":
 		if cur != nil {
@@ -195,7 +218,7 @@ func (m *model) key() string {
 // linearizable searches for a total order of the history that respects real-time precedence
 // (a.Ret < b.Call => a before b), reproduces every result on the sequential model and ends in the
 // observed final state.
-func linearizable(g string, hist []histOp, final string) (bool, []int) {
+func linearizable(g string, v int, hist []histOp, final string) (bool, []int) {
 	n := len(hist)
 	used := make([]bool, n)
 	order := make([]int, 0, n)
@@ -233,22 +256,30 @@ func linearizable(g string, hist []histOp, final string) (bool, []int) {
 		}
 		return false
 	}
-	okk := rec(newModel(g))
+	m0 := newModel(g)
+	m0.v = v
+	okk := rec(m0)
 	return okk, order
 }
 
 // RunBloom executes one schedule of a configuration on fresh real objects and applies the oracles.
 func RunBloom(cfg BloomConfig, choose func(step int, enabled []int, runningEnabled bool) int) *Outcome {
 	n, k := geom(cfg.Geom)
-	m0 := wire.NewMsgFilterLoad(make([]byte, n), k, 0x1234, wire.BloomUpdateAll)
-	m1 := wire.NewMsgFilterLoad(reloadBytes(cfg.Geom), k, 0x9999, wire.BloomUpdateAll)
-	f := bloom.LoadFilter(m0)
+	nf := max(1, cfg.Filters)
+	m0s, m1s, fs := make([]*wire.MsgFilterLoad, nf), make([]*wire.MsgFilterLoad, nf), make([]*bloom.Filter, nf)
+	for i := range fs {
+		m0s[i] = wire.NewMsgFilterLoad(make([]byte, n), k, 0x1234, wire.BloomUpdateAll)
+		m1s[i] = wire.NewMsgFilterLoad(reloadBytes(cfg.Geom), k, 0x9999, wire.BloomUpdateAll)
+		fs[i] = bloom.LoadFilter(m0s[i])
+	}
 	hists := make([][]histOp, len(cfg.Progs))
 	bodies := make([]func(), len(cfg.Progs))
 	for ti, prog := range cfg.Progs {
 		ti, prog := ti, prog
 		tx := bchutil.NewTx(testTxMsg) // per-thread wrapper: the hash cache of bchutil.Tx is not the filter's concern
 		txBig := bchutil.NewTx(testTxBigMsg)
+		f, m0, m1 := fs[ti%nf], m0s[ti%nf], m1s[ti%nf]
+		itemY, hashH, outO := itemsOf(ti % nf)
 		bodies[ti] = func() {
 			for _, op := range prog {
 				if cfg.Geom == "big" {
@@ -302,6 +333,11 @@ func RunBloom(cfg BloomConfig, choose func(step int, enabled []int, runningEnabl
 		}
 	}
 	horizon := 5000
+	if nf > 1 {
+		// only what the package shares between filters matters here
+		verifrt.SkipLocal = true
+		defer func() { verifrt.SkipLocal = false }()
+	}
 	if cfg.Geom == "big" {
 		horizon = 2000000
 		// statements that announce no shared access are not scheduling points here either (a thread
@@ -318,14 +354,18 @@ func RunBloom(cfg BloomConfig, choose func(step int, enabled []int, runningEnabl
 	}
 	sort.Slice(hist, func(i, j int) bool { return hist[i].Call < hist[j].Call })
 	// final observed state (scheduler inactive now: plain calls)
-	loaded := 0
-	switch f.MsgFilterLoad() {
-	case m0:
-		loaded = 1
-	case m1:
-		loaded = 2
+	finals := make([]string, nf)
+	for i, f := range fs {
+		loaded := 0
+		switch f.MsgFilterLoad() {
+		case m0s[i]:
+			loaded = 1
+		case m1s[i]:
+			loaded = 2
+		}
+		finals[i] = fmt.Sprintf("%d/%x/%x", loaded, m0s[i].Filter, m1s[i].Filter)
 	}
-	final := fmt.Sprintf("%d/%x/%x", loaded, m0.Filter, m1.Filter)
+	final := strings.Join(finals, " | ")
 	var sb strings.Builder
 	for _, h := range hist {
 		fmt.Fprintf(&sb, "t%d:%s=%s ", h.Thread, h.Op, h.Result)
@@ -352,9 +392,21 @@ func RunBloom(cfg BloomConfig, choose func(step int, enabled []int, runningEnabl
 		o.Class, o.Problem = "no-termination-within-horizon", "step horizon reached"
 		return o
 	}
-	if ok, _ := linearizable(cfg.Geom, hist, final); !ok {
-		o.Class, o.Problem = "not-linearizable", "no sequential order of the calls consistent with real-time precedence explains the results and the final filter state: "+o.Summary
-		return o
+	for i := range fs {
+		var hi []histOp
+		for _, h := range hist {
+			if h.Thread%nf == i {
+				hi = append(hi, h)
+			}
+		}
+		if ok, _ := linearizable(cfg.Geom, i, hi, finals[i]); !ok {
+			o.Class, o.Problem = "not-linearizable", "no sequential order of the calls consistent with real-time precedence explains the results and the final filter state: "+o.Summary
+			if nf > 1 {
+				o.Class = "filters-interfere-with-each-other"
+				o.Problem = fmt.Sprintf("filter %d, used by its own goroutine only, did not behave as if used alone while another goroutine used another filter: %s", i, o.Summary)
+			}
+			return o
+		}
 	}
 	return o
 }
